@@ -2196,6 +2196,8 @@ def _str_parse(m, a, c):
         for imp in m.facts.impls_of(trait="std::str::FromStr", self_adt=head):
             for it in imp["items"]:
                 if it["name"] == "from_str" and it["path"] in m.facts.bodies:
+                    if it["path"] in m.hooks:
+                        return m.hooks[it["path"]](m, [a[0]], c)
                     return m.call_path(it["path"], [a[0]])
     return _from_str_prim(m, a, c)
 
